@@ -24,6 +24,9 @@ the client's count, unless discard_excess was requested, and builds its SearchRe
 Added while testing against seeded changes: Also: the walked state (started_keys, excludes, included_keys) reaches the
 count check and the SearchResult unmodified; limited_search_result_from_parent_map returns exactly the locally
 replayed search's (start minus found heads, stop, len(keys)).
+refine-accumulators-per-source: both sets handed to search.refine() in RemoteStreamSource.missing_parents_chain are reset
+after every refine. stop-keys-from-seen-ancestors: _walk_to_common_revisions stops its searcher at
+find_seen_ancestors(have_revs) (third-round seeds).
 Does not decide: that the client's recipe denotes the intended set of revisions (graph values).
 """
 
@@ -133,7 +136,43 @@ def run(ctx):
     ctx.check("count-check", where, len(sres) == 1 and [norm(a) for a in sres[0].args] == ["started_keys", "excludes", "len(included_keys)", "included_keys"], "the server's SearchResult is built from what it actually walked")
 
 
+    # ---- refine(): the sets subtracted from the recipe are per source --------------------------------------------------
+    # RemoteStreamSource.missing_parents_chain: search.refine(seen, referenced) subtracts len(seen) from the recipe's count;
+    # both accumulators are reset after every refine, or the revisions of an earlier source are subtracted again for the
+    # next one and the count no longer describes the walk the deepest fallback is asked to replay.
+    from ..cfg import build_cfg as _bcfg
+
+    fmc = repo.func(RM, "RemoteStreamSource.missing_parents_chain")
+    wmc = f"{RM}:RemoteStreamSource.missing_parents_chain"
+    gmc = _bcfg(fmc).without_exc_edges()
+    refs_ = [(n.id, [norm(a) for a in c.args]) for n in gmc.nodes for c in n.calls() if call_attr(c) == "refine"]
+    ctx.require(len(refs_) >= 1, f"{wmc}: the refine() call was not found")
+    for rid, args in refs_:
+        for a in args:
+            resets = [n.id for n in gmc.nodes if n.kind == "stmt" and isinstance(n.ast, ast.Assign) and any(norm(t) == a for t in n.ast.targets) and norm(n.ast.value) in ("set()", "frozenset()")]
+            after = [r_ for r_ in resets if r_ in gmc.reach([rid])]
+            loop = gmc.loops_of(rid)
+            back = [loop[-1]] if loop else []
+            leak = bool(back) and back[0] in gmc.reach([rid], avoid=set(after)) if after else True
+            ctx.check("refine-accumulators-per-source", wmc, bool(after) and not leak, f"`{a}` is reset after refine() before the next source is asked", construct=a, message=f"`{a}` keeps accumulating across the sources of the fallback chain: refine() subtracts len(seen) from the recipe's count, so with three or more repositories the top repository's revisions are subtracted twice and the recipe sent to the deepest fallback has a wrong count (when it reaches 0 that fallback is never asked and revisions are silently missing)")
+    # ---- the stop keys of the walk to the common revisions come from the walked graph ----------------------------------
+    VFR = "breezy/bzr/vf_repository.py"
+    fwc = repo.func(VFR, "InterVersionedFileRepository._walk_to_common_revisions")
+    wwc = f"{VFR}:InterVersionedFileRepository._walk_to_common_revisions"
+    stops = [c for c in calls_in(fwc) if call_attr(c) == "stop_searching_any"]
+    ctx.require(len(stops) >= 1, f"{wwc}: stop_searching_any(...) not found")
+    for c in stops:
+        a = c.args[0] if c.args else None
+        if isinstance(a, ast.Name):
+            defs = [s_.value for s_ in walk_own(fwc) if isinstance(s_, ast.Assign) and any(norm(t) == a.id for t in s_.targets)]
+            a = defs[0] if len(defs) == 1 else a
+        okw = isinstance(a, ast.Call) and call_attr(a) == "find_seen_ancestors" and call_recv(a) == call_recv(c)
+        ctx.check("stop-keys-from-seen-ancestors", wwc, okw, "the walk is stopped at find_seen_ancestors(<revisions the target has>)", construct=norm(c)[:80], message=f"`{norm(c)[:70]}` stops the walk at the target's revisions themselves instead of their ancestors among the revisions already seen: when the target holds X but not one of X's ancestors (a ghost filled later), the batched walk has already gone through X into those ancestors — they stay in the recipe's count but are only reachable through excluded keys, so the server's replay never reaches them")
+
+
 MUTANTS = [
+    Mutant("seen revisions accumulate across the fallback chain", RM, "            search = search.refine(self.seen_revs, self.referenced_revs)\n            self.seen_revs = set()\n", "            search = search.refine(self.seen_revs, self.referenced_revs)\n", expect="refine-accumulators-per-source"),
+    Mutant("walk stopped at the target's revisions, not their seen ancestors", "breezy/bzr/vf_repository.py", "                stop_revs = searcher.find_seen_ancestors(have_revs)\n                searcher.stop_searching_any(stop_revs)\n", "                searcher.stop_searching_any(have_revs)\n", expect="stop-keys-from-seen-ancestors"),
     Mutant("limited recipe drops ghost stop keys", VS, "        start_keys = set(start_keys).difference(found_heads)\n    return start_keys, exclude_keys, len(keys)", "        start_keys = set(start_keys).difference(found_heads)\n    exclude_keys = set(exclude_keys).difference(missing_keys)\n    return start_keys, exclude_keys, len(keys)", expect="limited-recipe-is-replay-state"),
     Mutant("null: dropped from the walked keys before the count check", SR, "            (started_keys, excludes, included_keys) = search.get_state()\n", "            (started_keys, excludes, included_keys) = search.get_state()\n            included_keys = set(included_keys)\n            included_keys.discard(b\"null:\")\n", expect="count-check"),
     Mutant("start/stop lines swapped in the client serialiser", RM, "        return b\"\\n\".join((start_keys, stop_keys, count))\n\n    def _serialise_search_result", "        return b\"\\n\".join((stop_keys, start_keys, count))\n\n    def _serialise_search_result", expect="writer-fields"),
